@@ -1092,6 +1092,8 @@ func child(c *vf.Ctx) {
 		seqChild(c)
 	case "xkey":
 		xkeyChild(c)
+	case "wide":
+		wideChild(c)
 	case "replay":
 		c.Replay = c.ChildArgs[0]
 		replayChild(c)
@@ -1103,8 +1105,10 @@ func child(c *vf.Ctx) {
 func replay(c *vf.Ctx) {
 	var cs seqCase
 	var xk xkeyCase
+	var wc wideCase
 	c.LoadReplay(&xk)
-	if err := c.LoadReplay(&cs); !xk.XKey && (err != nil || cs.Interval0 == 0) {
+	c.LoadReplay(&wc)
+	if err := c.LoadReplay(&cs); !xk.XKey && !wc.Wide && (err != nil || cs.Interval0 == 0) {
 		fmt.Fprintln(os.Stderr, "replay: not a sequential C07 case (concurrent findings are re-run by seed):", err)
 		os.Exit(3)
 	}
@@ -1118,6 +1122,17 @@ func replay(c *vf.Ctx) {
 }
 
 func replayChild(c *vf.Ctx) {
+	var wc wideCase
+	if c.LoadReplay(&wc); wc.Wide {
+		r := runWide(wc)
+		c.Count("evaluations", 1)
+		fmt.Printf("replayed trace: %s\n", r.trace)
+		if r.viol != nil {
+			wc.Trace = r.trace
+			c.Violation(r.viol.fp, r.viol.what, wc)
+		}
+		return
+	}
 	var xk xkeyCase
 	if c.LoadReplay(&xk); xk.XKey {
 		r := runXKey(xk)
@@ -1147,7 +1162,7 @@ func run(c *vf.Ctx) {
 		replay(c)
 		return
 	}
-	c.SetRule("sequential: every history over {Next, Release, Restart(interval in 1,2,3,7), Back (the key is handed back to an earlier object that was cleanly Released; objects keep their own interval; only one object ever holds a lease)} up to the exhaustive length, for each initial interval, is executed without a crash and with an injected fault at every store call it makes: a crash before / after applying it (panic, object abandoned, fresh NewSequence on the same store) or a store error (sentinel returned, not applied, the same object keeps being used) (pairs of crash points for the shorter lengths; longer histories sampled from the seed with 1-3 crashes); one evaluation = one execution of a (history, crash plan); distinct_nontrivial = distinct crash-free histories in which at least two numbers were issued with a crash/restart/release between the first and the last of them. concurrent: one evaluation = one Next call made while 2-16 goroutines share the Sequence")
+	c.SetRule("sequential: every history over {Next, Release, Restart(interval in 1,2,3,7), Back (the key is handed back to an earlier object that was cleanly Released; objects keep their own interval; only one object ever holds a lease)} up to the exhaustive length, for each initial interval, is executed without a crash and with an injected fault at every store call it makes: a crash before / after applying it (panic, object abandoned, fresh NewSequence on the same store) or a store error (sentinel returned, not applied, the same object keeps being used) (pairs of crash points for the shorter lengths; longer histories sampled from the seed with 1-3 crashes); one evaluation = one execution of a (history, crash plan); distinct_nontrivial = distinct crash-free histories in which at least two numbers were issued with a crash/restart/release between the first and the last of them. wide: the same kind of histories over {Next, Release, Switch} with intervals and starting marks on the boundaries of the uint64 range (2^31, 2^32, 2^63 +-1, MaxUint64-k; a starting mark is produced by an earlier owner through the API), exact uint64 oracle, one evaluation = one (history, fault plan). concurrent: one evaluation = one Next call made while 2-16 goroutines share the Sequence")
 	// several keys in one process, renewals nested inside another key's Set window (deterministic);
 	// runs next to the sequential children
 	xkDone := make(chan struct{})
@@ -1171,8 +1186,15 @@ func run(c *vf.Ctx) {
 			}
 		}
 	}()
+	// boundary intervals and marks anywhere in the uint64 range (wide.go); next to the sequential children
+	wideDone := make(chan struct{})
+	go func() {
+		defer close(wideDone)
+		widePart(c)
+	}()
 	sequentialPart(c)
 	<-xkDone
+	<-wideDone
 	flushViols(c)
 	c.SetExhaustive(true)
 
@@ -1213,6 +1235,12 @@ func run(c *vf.Ctx) {
 	c.Require("multikey_next_calls", 10000)
 	c.Require("runs_object_reused_after_release", 500)
 	c.Require("race_children", 1)
+	c.Require("wide_runs", 100000)
+	c.Require("wide_nontrivial", 1000)
+	c.Require("wide_numbers_issued_above_maxint64", 10000)
+	c.Require("wide_runs_interval_above_maxint64_two_or_more_next_on_one_object", 10000)
+	c.Require("wide_runs_lease_crossing_2^32_or_2^63", 100)
+	c.Require("wide_runs_in_exhaustion_zone", 1000)
 	c.Assume("a crash of the owning process is modelled by a panic out of the store call followed by abandoning the Sequence object; mapdb applies Set atomically")
 	c.Assume("errors.Is / panics of faultkv are the only injected faults; mapdb itself never fails")
 }
